@@ -1,7 +1,7 @@
 #!/usr/bin/env python3
 """Run every seeded change (seeded/<id>/patch.diff, and the fix-reverts) against the
 quick check of its own property (plus extra properties given in EXTRA) and record
-caught / missed in seeded/MATRIX.json.  Applies each patch to /repo, runs, reverts."""
+caught / missed in seeded/MATRIX.json.  Each patch is applied in its own scratch worktree of /repo HEAD (never in /repo itself); 3 at a time."""
 import json, os, re, subprocess, sys
 ROOT = os.path.dirname(os.path.dirname(os.path.abspath(__file__)))
 EXTRA = {'C09-m2': ['C19'], 'C01-m2': ['C06'], 'C04-m1': ['C17'], 'C06-m2': ['C11']}
@@ -14,18 +14,24 @@ def sh(cmd):
     return subprocess.run(cmd, shell=True, capture_output=True, text=True)
 
 
-def run(patch, prop):
-    if sh('git -C /repo apply --check %s' % patch).returncode:
-        return {'status': 'patch-does-not-apply'}
-    sh('git -C /repo apply %s' % patch)
+def run(name, patch, prop):
+    """apply the patch in a scratch worktree of /repo HEAD and run the check against it (VF_REPO / VF_SCRATCH)"""
+    wt = '/tmp/sw/mx-' + re.sub(r'[^A-Za-z0-9]+', '_', name + '_' + prop)
+    sh('git -C /repo worktree remove --force %s' % wt)
+    os.makedirs('/tmp/sw', exist_ok=True)
+    if sh('git -C /repo worktree add -q --detach %s HEAD' % wt).returncode:
+        return {'status': 'worktree-failed'}
     try:
-        p = sh('cd %s && ./check %s --tier quick' % (ROOT, prop))
+        if sh('git -C %s apply %s' % (wt, patch)).returncode:
+            return {'status': 'patch-does-not-apply'}
+        env = 'VF_REPO=%s VF_SCRATCH=%s/.vf VF_WORKERS=5' % (wt, wt)
+        p = sh('cd %s && %s ./check %s --tier quick' % (ROOT, env, prop))
     finally:
-        sh('git -C /repo checkout -- . ')
+        sh('git -C /repo worktree remove --force %s' % wt)
     m = re.search(r'obligations=(\d+) confirmed=(\d+) known=(\d+) violated=(\d+) inconclusive=(\d+)', p.stdout)
     first = [l for l in p.stdout.splitlines() if l.startswith('  obligation ')][:1]
     return {'exit': p.returncode, 'caught': p.returncode == 1 and 'VIOLATION property=' in p.stdout,
-            'summary': m.group(0) if m else p.stdout[-200:], 'first_violation': first[0][:200] if first else None}
+            'summary': m.group(0) if m else (p.stdout + p.stderr)[-200:], 'first_violation': first[0][:200] if first else None}
 
 
 def main():
@@ -45,13 +51,19 @@ def main():
         if os.path.exists(f):
             for pr in props:
                 jobs.append(('fix-revert/' + name, f, pr))
-    for name, patch, prop in jobs:
-        if only and not any(o in name for o in only):
-            continue
-        r = run(patch, prop)
-        matrix.setdefault(name, {})[prop] = r
+    from concurrent.futures import ThreadPoolExecutor
+    jobs = [j for j in jobs if not only or any(o in j[0] for o in only)]
+
+    def work(job):
+        name, patch, prop = job
+        r = run(name, patch, prop)
         print(name, prop, 'CAUGHT' if r.get('caught') else r.get('status', 'missed'), r.get('summary', ''), flush=True)
-        json.dump(matrix, open(path, 'w'), indent=1, sort_keys=True)
+        return name, prop, r
+
+    with ThreadPoolExecutor(max_workers=int(os.environ.get('MX_PAR', '3'))) as ex:
+        for name, prop, r in ex.map(work, jobs):
+            matrix.setdefault(name, {})[prop] = r
+            json.dump(matrix, open(path, 'w'), indent=1, sort_keys=True)
 
 
 main()
